@@ -45,6 +45,13 @@ CONFIGS = {
                 (7, 'mismatch', 'two', 'nonstr', True)],
     'noreply2': [(None, 'unchecked', 's', 'msg', False),
                  (5, 'match', 'two', 'msg', True)],
+    # the same operation twice: two calls that expect no reply; and one
+    # between ordinary calls
+    'noreply-twice2': [(None, 'unchecked', 's', 'msg', False),
+                       (None, 'match', 'none', 'bare', False)],
+    'noreply-around3': [(None, 'unchecked', 's', 'msg', False),
+                        (5, 'match', 's', 'msg', True),
+                        (None, 'unchecked', 'two', 'bare', False)],
     # a non-empty declared return signature answered without any value, and
     # a declared-empty one answered with a value
     'declared-vs-empty2': [(None, 'mismatch', 'none', 'msg', True),
@@ -169,8 +176,11 @@ class CallScenario(explore.Scenario):
         return evs
 
     def _watch(self, w, i, d):
+        # the application's callbacks hand a value of their own down the
+        # chain, as callbacks that chain further work do
         def ok(v):
             w.results[i].append(('ok', v))
+            return ('handled-by-application', i)
 
         def err(f):
             e = f.value
@@ -181,6 +191,7 @@ class CallScenario(explore.Scenario):
                                       list(getattr(e, 'values', []) or []))))
             else:
                 w.results[i].append(('err', name, None))
+            return ('failure-handled-by-application', i)
         d.addCallbacks(ok, err)
 
     def apply(self, w, ev):
@@ -403,7 +414,8 @@ def run(ctx):
     ctx.assumptions = ['calls are issued in index order; deadlines are '
                        'permuted through the configurations instead']
     names = ['plain2', 'deadlines2', 'deadlines2rev', 'mixed2', 'retsig2',
-             'noreply2', 'same-deadline2', 'declared-vs-empty2']
+             'noreply2', 'same-deadline2', 'declared-vs-empty2',
+             'noreply-twice2', 'noreply-around3']
     sysnames = sorted(k for k in CONFIGS if k.startswith('sys/'))
     if ctx.quick:
         # a third of the systematic pairs (every mode x reply shape occurs)
